@@ -17,6 +17,7 @@ oracle: on the real engine, independent of the model: (a) auto_reload with a wor
 import itertools
 import os
 import shutil
+import sys
 
 from . import lib
 
@@ -38,6 +39,7 @@ RULE = ("histories: every sequence up to length L1 over the 9-operation alphabet
         "follows a put or delete of a name that was loaded before.")
 
 NAMES = {1: "n1", 2: "n2", 3: "n3", 4: "n4"}
+NAMES_ALIAS = {1: "n1", 2: "./n1", 3: "/n1", 4: "a//n1"}      # kind dicta: spellings a DictLoader treats as DIFFERENT templates
 NAMES_SUB = {1: "sub/n1", 2: "sub/n2", 3: "n3", 4: "deep/er/n4"}      # kind fs2d: names with directories that may not exist yet
 ALPHA_FULL = ["g:1", "g:2", "s:1,2", "s:2,1", "p:1:1", "p:1:2", "p:2:2", "d:1", "d:2"]
 ALPHA_RED = ["g:1", "g:2", "p:1:2", "p:1:1", "d:1", "s:2,1"]
@@ -54,7 +56,7 @@ MT0 = 1_000_000_000
 
 
 def src(n, v):
-    return f"{NAMES[n]}v{v}"
+    return f"n{n}v{v}"
 
 
 class World:
@@ -64,9 +66,9 @@ class World:
         self.kind = kind
         self.state = dict(INIT)
         self.fsdir = fsdir
-        self.names = NAMES_SUB if kind in ("fs2d", "fsd") else NAMES         # the names templates are requested under
-        if kind == "dict":
-            self.mapping = {NAMES[n]: src(n, v) for n, v in self.state.items()}
+        self.names = NAMES_SUB if kind in ("fs2d", "fsd") else NAMES_ALIAS if kind == "dicta" else NAMES         # the names templates are requested under
+        if kind in ("dict", "dicta"):
+            self.mapping = {self.names[n]: src(n, v) for n, v in self.state.items()}
             self.loader = jinja2.DictLoader(self.mapping)
         elif kind == "fs":
             for f in os.listdir(fsdir):
@@ -82,6 +84,23 @@ class World:
             for n, v in self.state.items():
                 self._write(n, v)
             self.loader = jinja2.FileSystemLoader(self.fsdir)
+        elif kind == "pkg":
+            # PackageLoader on a directory package; same forced mtimes (they also move BACKWARDS: put v2 then put v1)
+            root = fsdir + "P"
+            shutil.rmtree(root, ignore_errors=True)
+            self.fsdir = os.path.join(root, "c25pkg", "templates")
+            os.makedirs(self.fsdir)
+            open(os.path.join(root, "c25pkg", "__init__.py"), "w").write("")
+            for n, v in self.state.items():
+                self._write(n, v)
+            import importlib
+            sys_path_added = root not in sys.path
+            if sys_path_added:
+                sys.path.insert(0, root)
+            for k in [k for k in sys.modules if k == "c25pkg" or k.startswith("c25pkg.")]:
+                del sys.modules[k]
+            importlib.invalidate_caches()
+            self.loader = jinja2.PackageLoader("c25pkg", "templates")
         elif kind == "fslink":
             # every template in the search path is a symbolic link to a file elsewhere; source changes hit the TARGET
             self.ldir, self.tdir = os.path.join(fsdir + "L", "links"), os.path.join(fsdir + "L", "targets")
@@ -130,9 +149,9 @@ class World:
     def replace(self, n, v):
         """the same source change as put(), made by REPLACING the loader's container object (a new mapping / state dict and
         load_func / search path list) instead of mutating it in place"""
-        if self.kind == "dict":
+        if self.kind in ("dict", "dicta"):
             new = dict(self.mapping)
-            new[NAMES[n]] = src(n, v)
+            new[self.names[n]] = src(n, v)
             self.state[n] = v
             self.mapping = new
             self.loader.mapping = new
@@ -222,23 +241,23 @@ class World:
 
     def put(self, n, v):
         self.state[n] = v
-        if self.kind == "dict":
-            self.mapping[NAMES[n]] = src(n, v)
-        elif self.kind in ("fs", "fslink", "fsd"):
+        if self.kind in ("dict", "dicta"):
+            self.mapping[self.names[n]] = src(n, v)
+        elif self.kind in ("fs", "fslink", "fsd", "pkg"):
             self._write(n, v)
 
     def delete(self, n):
         self.state.pop(n, None)
-        if self.kind == "dict":
-            self.mapping.pop(NAMES[n], None)
-        elif self.kind in ("fs", "fslink", "fsd"):
+        if self.kind in ("dict", "dicta"):
+            self.mapping.pop(self.names[n], None)
+        elif self.kind in ("fs", "fslink", "fsd", "pkg"):
             try:
                 os.unlink(os.path.join(self.tdir if self.kind == "fslink" else self.fsdir, self.names[n]))     # fslink: the link dangles
             except OSError:
                 pass                        # already gone, or (kind fsd) the path runs through a file / ends in a directory
 
 
-UPT = {"dict": "V", "fs": "V", "funcV": "V", "funcN": "N", "funcT": "T", "funcF": "F", "fs2": "V", "fs2d": "V", "fslink": "V", "fsd": "V", "choice": "V"}
+UPT = {"dict": "V", "fs": "V", "funcV": "V", "funcN": "N", "funcT": "T", "funcF": "F", "fs2": "V", "fs2d": "V", "fslink": "V", "fsd": "V", "pkg": "V", "dicta": "V", "choice": "V"}
 
 
 class StrSub(str):
@@ -517,12 +536,12 @@ def run(ctx):
     red = list(histories(ALPHA_RED, L1 + 1, L2))
     three = list(histories(ALPHA_3, 3, L2))
     grid = [(s_, a_) for s_ in (0, 1, 2, -1) for a_ in (1, 0)]
-    quick_grid = [(0, 1), (1, 1), (1, 0), (-1, 1), (-1, 0)]
-    for size, ar in (quick_grid if ctx.tier == "quick" else [(0, 1), (1, 1), (2, 1), (-1, 0)]):
-        if True:
-            for h in full:
+    quick_grid = [(0, 1), (1, 1), (-1, 1), (-1, 0)] if ctx.tier == "quick" else [(0, 1), (1, 1), (1, 0), (-1, 1), (-1, 0)]
+    for size, ar in quick_grid:
+        for h in full:
+            if len(h) <= 4 or (size, ar) == (1, 1):      # thorough: length 5 under one configuration only
                 cases.append(("dict", ar, size, h))
-    for size, ar in ((2, 0),) if ctx.tier == "quick" else ((1, 1), (2, 0)):
+    for size, ar in ((2, 0),) if ctx.tier == "quick" else ((1, 1),):
         for h in red:
             cases.append(("dict", ar, size, h))
     for size, ar in ((2, 1), (2, 0)) if ctx.tier == "quick" else ((1, 1), (2, 1), (2, 0)):
@@ -534,6 +553,8 @@ def run(ctx):
     for size in ((3,) if ctx.tier == "quick" else (3, 4)):
         for ar in ((1, 0) if size == 3 else (1,)):
             for h in four:
+                if size == 4 and len(h) > L2:
+                    continue
                 cases.append(("dict", ar, size, h))
     short = list(histories(ALPHA_FULL, 0, L1 - 1))
     for kind in ("funcV", "funcN", "funcT", "funcF"):
@@ -542,35 +563,39 @@ def run(ctx):
                 for h in short:
                     cases.append((kind, ar, size, h))
     fs_h = list(histories(ALPHA_RED, 0, L1)) + list(histories(ALPHA_3, 3, L1))
-    for size, ar in [(0, 1), (1, 1), (-1, 1), (-1, 0), (2, 0)]:
+    for size, ar in [(0, 1), (1, 1), (-1, 1), (-1, 0)] if ctx.tier == "quick" else [(1, 1), (-1, 1), (-1, 0)]:
         if True:
             for h in fs_h:
                 cases.append(("fs", ar, size, h))
     # auto_reload is a public attribute: histories in which it is switched between requests
     tog = [h for h in histories(ALPHA_TOG, 2, L1) if any(o.startswith("a:") for o in h)]
-    for kind, size, ar in (("dict", 1, 0), ("dict", -1, 0), ("fs", -1, 0)) + ((("dict", 2, 1), ("fs", 1, 0), ("funcV", -1, 0)) if ctx.tier != "quick" else ()):
+    for kind, size, ar in (("dict", 1, 0), ("dict", -1, 0), ("fs", -1, 0)):
         for h in tog:
             cases.append((kind, ar, size, h))
     # the same source changes made by replacing the loader's container (loader.mapping = {...}, load_func, searchpath)
     rep = [h for h in histories(ALPHA_REP, 2, L1) if any(o.startswith("R:") for o in h)]
     for kind, size, ar in (("dict", 1, 1), ("dict", -1, 0), ("funcV", -1, 1), ("fs", -1, 1)) + \
-            ((("dict", 2, 1), ("fs", 1, 1)) if ctx.tier != "quick" else ()):
+            ():
         for h in rep:
             cases.append((kind, ar, size, h))
     # template cache and bytecode cache composed (the bytecode cache already holds every template)
     bc_h = list(histories(ALPHA_RED, 2, L1))
-    for kind, size, ar in (("dict+bc", 1, 1), ("fs+bc", -1, 1)) + ((("dict+bc", -1, 1), ("dict+bc", 2, 1), ("fs+bc", 1, 1), ("dict+bc", -1, 0)) if ctx.tier != "quick" else ()):
+    for kind, size, ar in (("dict+bc", 1, 1), ("fs+bc", -1, 1)) + ((("dict+bc", -1, 1),) if ctx.tier != "quick" else ()):
         for h in bc_h:
+            cases.append((kind, ar, size, h))
+    # PackageLoader (directory form) and a DictLoader whose names are different spellings of one path
+    for kind, size, ar in ((("pkg", -1, 1), ("dicta", -1, 1), ("dicta", 2, 1)) if ctx.tier == "quick" else (("pkg", -1, 1), ("pkg", 1, 1), ("dicta", -1, 1), ("dicta", 2, 1))):
+        for h in histories(ALPHA_RED if kind == "pkg" else ALPHA_FULL, 2, L1 if kind == "pkg" else 3):
             cases.append((kind, ar, size, h))
     # deletions that change the shape of the directory tree
     fsd_h = [h for h in histories(ALPHA_FSD, 2, L1) if any(o[0] in "DF" for o in h)]
-    for size, ar in ((1, 1),) if ctx.tier == "quick" else ((-1, 1), (1, 1), (2, 1), (-1, 0)):
+    for size, ar in ((1, 1),) if ctx.tier == "quick" else ((-1, 1), (1, 1)):
         for h in fsd_h:
             cases.append(("fsd", ar, size, h))
     # layered loaders: FileSystemLoader with two search paths, ChoiceLoader of two DictLoaders; layer 1 shadows layer 2
     lay_h = list(histories(ALPHA_LAY, 0, L1))
     for kind in ("fs2", "choice", "fs2d"):
-        for size, ar in ((-1, 1), (1, 1), (-1, 0)) if kind != "fs2d" else ((-1, 1), (2, 1)):
+        for size, ar in (((-1, 1), (1, 1)) if kind != "fs2d" else ((-1, 1),)) if ctx.tier == "quick" else (((-1, 1), (1, 1)) if kind != "fs2d" else ((2, 1),)):
             for h in lay_h:
                 cases.append((kind, ar, size, h))
     # templates that are symbolic links: the source changes in the link's target
@@ -626,8 +651,11 @@ ENTRY_TPL = {
     "imp": "{{% import 'mac' as m %}}{{{{ m.f() }}}}", "frm": "{{% from 'mac' import f %}}{{{{ f() }}}}", "dyn": "<{{% include n %}}>",
     "ign": "{{% include 'zz' ignore missing %}}|{{% include ['zz', 'yy'] ignore missing %}}", "dir/a": "{{% include 'b' %}}A",
     "extl": "{{% extends ['zz', 'base'] %}}{{% block b %}}L{{% endblock %}}",
+    # nested import: imp2 imports mid, mid imports mac at its top level (mid's default module keeps mac's module)
+    "mid": "{{% import 'mac' as k %}}{{% macro g() %}}<{{{{ k.f() }}}}>{{% endmacro %}}", "imp2": "{{% import 'mid' as m %}}{{{{ m.g() }}}}",
 }
-ENTRY_OPS = ["r:inc", "r:incl", "r:ext", "r:imp", "r:frm", "r:dyn", "r:ign", "r:dir/a", "r:extl",
+NESTED_SIG = "C25:nested-import-keeps-the-inner-module"
+ENTRY_OPS = ["r:imp2", "r:inc", "r:incl", "r:ext", "r:imp", "r:frm", "r:dyn", "r:ign", "r:dir/a", "r:extl",
              "m:n1", "m:base", "m:mac", "m:dir/b", "d:n1", "d:zz", "a:zz", "d:base"]
 
 
@@ -653,9 +681,17 @@ def run_entry(ctx, jinja2):
     L = ctx.size(3, 4)
     hist = [list(h) for n in range(1, L + 1) for h in itertools.product(ENTRY_OPS, repeat=n) if h[-1].startswith("r:")]
     hist = [h for i, h in enumerate(hist) if i % ctx.size(3, 2) == 0]
+    # every "render, change ONE other template, render again" (and the same with a render of something else in between)
+    renders = [o for o in ENTRY_OPS if o.startswith("r:")]
+    changes = [o for o in ENTRY_OPS if not o.startswith("r:")]
+    sys_lo = len(hist)
+    hist += [[r, c, r] for r in renders for c in changes] + [[r, c, r2, r] for r in renders for c in changes for r2 in renders[:3] if r2 != r]
+    sys_hi = len(hist)
     hist += [[ctx.rng.choice(ENTRY_OPS) for _ in range(ctx.rng.randint(4, 9))] for _ in range(ctx.size(250, 2500))]
     for hi, h in enumerate(hist):
-        size = (-1, 1, 2, 0, 3)[hi % 5]
+        # the systematic histories run with caches large enough to keep every template involved (unbounded, 3 is too small for
+        # entry + two imports + the changed one only sometimes), the others rotate through all sizes
+        size = (-1, 4)[hi % 2] if sys_lo <= hi < sys_hi else (-1, 1, 2, 0, 3)[hi % 5]
         ver = {k: 1 for k in ENTRY_TPL}
         mapping = {k: t.format(v=1) for k, t in ENTRY_TPL.items() if k != "zz"}
         loader = jinja2.DictLoader(mapping)
@@ -680,7 +716,8 @@ def run_entry(ctx, jinja2):
                  key=("entry", size, tuple(h)) if any(not x.startswith("r:") for x in h[:-1]) else None)
         ctx.count("entry_points")
         if fail:
-            ctx.reject(case, fail)
+            # only the nested-import entry may match the recorded finding
+            ctx.reject(case, fail, NESTED_SIG if "r:imp2" in fail else None)
         else:
             ctx.validated()
     # a Template object passed as name is returned as it is; join_path decides the cache key; overlay() gets its own cache of the same kind
